@@ -461,3 +461,93 @@ pub fn col_config() -> CollectionConfig {
         description: "verif collection".into(),
     }
 }
+
+pub fn err_class(e: &DBError) -> &'static str {
+    match e {
+        DBError::AlreadyExists { .. } => "exists",
+        DBError::NotFound { .. } => "notfound",
+        DBError::Schema { .. } => "schema",
+        DBError::Index { .. } => "index",
+        DBError::Storage { .. } => "storage",
+        _ => "other",
+    }
+}
+
+/// Executes one abstract operation on a collection handle and returns the `ret` event.
+pub async fn exec_op(col: &Collection, op: &Value) -> Value {
+    let name = op["op"].as_str().unwrap();
+    let mut ret = json!({"e": "ret", "op": name});
+    let fail = |ret: &mut Value, e: &DBError| {
+        ret["ok"] = json!(false);
+        ret["err"] = json!(err_class(e));
+        ret["state"] = json!(e.collection_state().map(|s| format!("{s:?}")).unwrap_or_default());
+    };
+    match name {
+        "add" => match col.add_from(&mk_doc(op["val"].as_u64().unwrap() as usize)).await {
+            Ok(id) => {
+                ret["ok"] = json!(true);
+                ret["id"] = json!(id);
+            }
+            Err(e) => fail(&mut ret, &e),
+        },
+        "update" => match col
+            .update(
+                op["id"].as_u64().unwrap(),
+                update_fields(op["val"].as_u64().unwrap() as usize),
+            )
+            .await
+        {
+            Ok(_) => ret["ok"] = json!(true),
+            Err(e) => fail(&mut ret, &e),
+        },
+        "remove" => match col.remove(op["id"].as_u64().unwrap()).await {
+            Ok(d) => {
+                ret["ok"] = json!(true);
+                ret["found"] = json!(d.is_some());
+            }
+            Err(e) => fail(&mut ret, &e),
+        },
+        "flush" => match col.flush(anda_db::unix_ms()).await {
+            Ok(_) => ret["ok"] = json!(true),
+            Err(e) => fail(&mut ret, &e),
+        },
+        "ext" => {
+            let x = op["x"].as_u64().unwrap();
+            let r = if x == 0 {
+                col.remove_extension("x").await.map(|_| ())
+            } else {
+                col.save_extension("x".into(), Fv::U64(x)).await
+            };
+            match r {
+                Ok(_) => ret["ok"] = json!(true),
+                Err(e) => fail(&mut ret, &e),
+            }
+        }
+        "compact" => {
+            let idx = op["idx"].as_str().unwrap();
+            let r = if idx == "t" {
+                col.compact_bm25_index(&["t"]).await
+            } else {
+                col.compact_btree_index(&[idx]).await
+            };
+            match r {
+                Ok(_) => ret["ok"] = json!(true),
+                Err(e) => fail(&mut ret, &e),
+            }
+        }
+        "reconcile" => match col.reconcile_storage().await {
+            Ok((a, b)) => {
+                ret["ok"] = json!(true);
+                ret["recovered"] = json!(a);
+                ret["dropped"] = json!(b);
+            }
+            Err(e) => fail(&mut ret, &e),
+        },
+        "close" => match col.close().await {
+            Ok(_) => ret["ok"] = json!(true),
+            Err(e) => fail(&mut ret, &e),
+        },
+        other => panic!("unknown op {other}"),
+    }
+    ret
+}
